@@ -65,7 +65,7 @@ PROPS = {
         design='DESIGN.md §5 C06'),
     'C07': dict(
         title='list/table coherence and memory safety', level='model_checking', templates=['l2', 'l1'],
-        k_quick=SUB_Q + ['q_op_clear', 'q_op_retain', 'q_op_clone', 'q_op_ends', 'q_drain', 'q_iter_link', 'q_sub_collide', 'q_forget_drain', 'q_cb_try_reallocate'],
+        k_quick=SUB_Q + ['q_op_clear', 'q_op_retain', 'q_op_clone', 'q_op_ends', 'q_drain', 'q_drain_small', 'q_iter_link', 'q_sub_collide', 'q_forget_drain', 'q_cb_try_reallocate', 'q_cb_remove_ends', 'q_cb_lookup_remove'],
         k_thorough=SUB_T + ['t_op_clear', 't_op_retain', 't_op_clone', 't_drain', 't_iter_link', 't_op_clone_diverge_touch', 't_op_clone_diverge_clear', 't_op_clone_diverge_retain'],
         assumptions=[A_HEAP, A_DOUBLE, A_HB, A_UNSAFE, A_KBOUND,
                      'caches with thousands of entries are not reached; composite public operations are covered through V (acct after each of them) over these L1 contracts',
@@ -95,7 +95,7 @@ PROPS = {
         design='DESIGN.md §5 C11'),
     'C12': dict(
         title='iterators', level='proof', templates=['iter', 'l1'],
-        k_quick=['q_iter_link', 'q_it_iter', 'q_it_keys_values', 'q_it_empty_single', 'q_drain', 'q_it_into_iter', 'q_it_into_keys_values', 'q_ledger_into_iter', 'q_ledger_owning_mixed'],
+        k_quick=['q_iter_link', 'q_it_iter', 'q_it_keys_values', 'q_it_empty_single', 'q_drain', 'q_drain_small', 'q_it_into_iter', 'q_it_into_keys_values', 'q_ledger_into_iter', 'q_ledger_owning_mixed'],
         k_thorough=['t_iter_link', 't_it_borrowing', 't_drain', 't_it_owning'],
         assumptions=[A_HEAP, A_SUB, A_DOUBLE, A_UNSAFE, A_KBOUND,
                      'snap()/at() heap snapshot: the link structure is immutable while an iterator runs; that the real links satisfy linked() is Kani harness iter_link (bounded)',
